@@ -115,6 +115,34 @@ func (p *Program) LookupType(name string, rel *types.Package) (types.Type, error
 			return tn.Type(), nil
 		}
 	}
+	if strings.HasPrefix(name, "map[") {
+		depth, j := 0, -1
+		for i := 3; i < len(name); i++ {
+			if name[i] == '[' {
+				depth++
+			} else if name[i] == ']' {
+				depth--
+				if depth == 0 {
+					j = i
+					break
+				}
+			}
+		}
+		if j > 0 {
+			kt, err := p.LookupType(strings.TrimSpace(name[4:j]), rel)
+			if err != nil {
+				return nil, err
+			}
+			vt, err := p.LookupType(strings.TrimSpace(name[j+1:]), rel)
+			if err != nil {
+				return nil, err
+			}
+			return types.NewMap(kt, vt), nil
+		}
+	}
+	if strings.ReplaceAll(name, " ", "") == "struct{}" {
+		return types.NewStruct(nil, nil), nil
+	}
 	if strings.HasPrefix(name, "fieldtype(") && strings.HasSuffix(name, ")") {
 		// fieldtype(T.f): the declared type of field f of struct type T (a way to name anonymous types)
 		inner := name[len("fieldtype(") : len(name)-1]
